@@ -26,8 +26,8 @@ type Invocation struct {
 
 // Outcome scripts one process.
 type Outcome struct {
-	PipeErr  error  // StdinPipe fails
-	WriteErr error  // writing stdin fails
+	PipeErr  error  // StdinPipe fails (with Cmd.Stdin set: the pipe made by Start fails)
+	WriteErr error  // writing stdin fails (with Cmd.Stdin set: the copy made by os/exec fails)
 	StartErr error  // Output/CombinedOutput fails before the process exists (not an ExitError)
 	Stdout   []byte // for CombinedOutput: the combined stream
 	Stderr   []byte
@@ -163,8 +163,18 @@ func (c *Cmd) scripted(combined bool) ([]byte, error) {
 	if c.out.StartErr != nil {
 		return nil, c.out.StartErr
 	}
+	var copyErr error
 	if !c.piped && c.Stdin != nil {
-		io.Copy(&c.stdin, c.Stdin)
+		// os/exec makes the pipe in Start (a failure is a start failure) and copies Stdin in a
+		// goroutine of its own; a copy error is returned by Wait unless the process failed itself
+		if c.out.PipeErr != nil {
+			return nil, c.out.PipeErr
+		}
+		if c.out.WriteErr != nil {
+			copyErr = c.out.WriteErr
+		} else {
+			io.Copy(&c.stdin, c.Stdin)
+		}
 	}
 	inv := Invocation{Name: c.Path, Args: c.Args[1:], Stdin: c.stdin.String(), Combined: combined}
 	if x := vsched.Cur(); x != nil {
@@ -187,6 +197,9 @@ func (c *Cmd) scripted(combined bool) ([]byte, error) {
 			ee.Stderr = c.out.Stderr
 		}
 		return c.out.Stdout, ee
+	}
+	if copyErr != nil {
+		return c.out.Stdout, copyErr
 	}
 	return c.out.Stdout, nil
 }
